@@ -300,6 +300,10 @@ package keyvalue
 
 //@ spec memRecStore(rec FileRecord) := rec.(mem.fileRecord).store
 //@ spec memHasChild(rec FileRecord) := exists(k, dom(memRecStore(rec).records), mem.isChildKey(k, rec.(mem.fileRecord).path))
+//@ spec memRecPath(rec FileRecord) := rec.(mem.fileRecord).path
+//@ spec listsAll(names []string, rec FileRecord) := forall(q, dom(memRecStore(rec).records), implies(mem.isChildKey(q, memRecPath(rec)), exists(i, 0, len(names), names[i] == mem.childName(q, memRecPath(rec)))))
+//@ spec listsOnly(names []string, rec FileRecord) := forall(i, 0, len(names), exists(q, dom(memRecStore(rec).records), mem.isChildKey(q, memRecPath(rec)) && names[i] == mem.childName(q, memRecPath(rec))))
+//@ spec listsOnce(names []string) := forall(i, 0, len(names), forall(j, 0, i, names[i] != names[j]))
 //@ func (r *runOnceFileRecord) ReadDirNames() (names []string, err error)
 //@   props C16 C14 C03
 //@   dispatch FileRecord mem.fileRecord
@@ -309,6 +313,7 @@ package keyvalue
 //@   ensures "mem-first" [C03 C01] implies(!old(oncedone(r.dirNamesOnce)) && isMemRec(r.record),
 //@                     iff(err == nil, r.record.(mem.fileRecord).mode & hackpadfs.ModeDir != 0) && implies(err != nil, err == hackpadfs.ErrNotDir) &&
 //@                     implies(err == nil, iff(len(names) > 0, memHasChild(r.record))))
+//@   ensures "mem-exact" [C16 C03] implies(!old(oncedone(r.dirNamesOnce)) && isMemRec(r.record) && err == nil, listsAll(names, r.record) && listsOnly(names, r.record) && listsOnce(names))
 //@   ensures "cached" implies(old(oncedone(r.dirNamesOnce)), names == old(r.dirNames) && err == old(r.dirNamesErr))
 //@   ensures "state" r.dirNames == names && r.dirNamesErr == err && oncedone(r.dirNamesOnce)
 //@   nopanic
@@ -679,6 +684,8 @@ package keyvalue
 //@                      forall(i, 0, len(entries), isType(entries[i], *dirEntry) && entries[i].(*dirEntry) != nil && entries[i].(*dirEntry).baseName == dirNames[start + i])
 //@   ensures "closed" implies(f.closed, entries == nil && closedError(err, f) && f.offset == old(f.offset))
 //@   ensures "listing-cached" implies(!f.closed, oncedone(fRec(f).dirNamesOnce)) && implies(old(oncedone(fRec(f).dirNamesOnce)), cNames(f) == old(cNames(f)) && cNamesErr(f) == old(cNamesErr(f)))
+//@   ensures "listing-exact" [C16 C03] implies(!f.closed && !old(oncedone(fRec(f).dirNamesOnce)) && isMemRec(fRec(f).record) && cNamesErr(f) == nil,
+//@                     listsAll(cNames(f), fRec(f).record) && listsOnly(cNames(f), fRec(f).record) && listsOnce(cNames(f)))
 //@   ensures "listing-first" implies(!f.closed && !old(oncedone(fRec(f).dirNamesOnce)) && !isMemRec(fRec(f).record), cNames(f) == old(dirNamesOf(fRec(f))) && cNamesErr(f) == old(dirNamesErrOf(fRec(f))))
 //@   ensures "names-error" implies(!f.closed && cNamesErr(f) != nil, entries == nil && isPathError(err) && pathOf(err) == f.path && innerErr(err) == cNamesErr(f) && f.offset == old(f.offset))
 //@   ensures "eof" implies(!f.closed && cNamesErr(f) == nil && n > 0 && old(f.offset) >= len(cNames(f)), len(entries) == 0 && err == io.EOF)
